@@ -127,17 +127,26 @@ Definition b_run (discard : bool) (p_cfg p_run : nat) (t : tables) (order : list
   @Batch.run FN Z Z (b_plugins t) (b_weight (t_kids t)) (b_resp (t_kids t)) (b_resp (t_kids t))
              (fun r => r) (fun _ => true) (pol_of discard) p_cfg p_run order.
 
-Definition show_outcome (sink : bool) (o : @Batch.outcome Z) : string :=
+(* [rowmap]: for a sink whose records are not the responses themselves (CSV), the id of the
+   record the REAL ResponseOutputFormat::format_response makes of each response; empty = the
+   records are the responses (JSON sinks) *)
+Definition map_rows (rowmap : list (Z * Z)) (l : list Z) : list Z :=
+  match rowmap with
+  | [] => l
+  | _ => map (fun r => match zlookup rowmap r with Some x => x | None => (-7)%Z end) l
+  end.
+
+Definition show_outcome (sink : bool) (rowmap : list (Z * Z)) (o : @Batch.outcome Z) : string :=
   "ret=" ++ show_list show_Z (Batch.returned o)
-  ++ " wr=" ++ (if sink then show_list show_Z (zsort (Batch.written o)) else "-").
+  ++ " wr=" ++ (if sink then show_list show_Z (zsort (map_rows rowmap (Batch.written o))) else "-").
 
 (* [flags]: verdicts of the harness's request-echo and single-response oracles, copied verbatim
    (they are not model output; the S line states what they must be) *)
 Definition batch_line (id : Z) (discard sink : bool) (p_cfg p_run : nat) (t : tables)
-           (order : list Z) (flags : string) : string :=
+           (order : list Z) (flags : string) (rowmap : list (Z * Z)) : string :=
   line "M" id (match b_run discard p_cfg p_run t order with
-               | Ok o => "Ok " ++ show_outcome sink o ++ flags
-               | r => show_res (show_outcome sink) r
+               | Ok o => "Ok " ++ show_outcome sink rowmap o ++ flags
+               | r => show_res (show_outcome sink rowmap) r
                end).
 
 (* the bins the model forms (printed next to the implementation's log in a replay) *)
@@ -154,12 +163,12 @@ Definition batch_bins (p_cfg p_run : nat) (t : tables) (order : list Z) : string
    answers and a query without a grid section has exactly one response (flags).
    Parallelism 0 is outside the property (1..#cores). *)
 Definition batch_spec_line (id : Z) (discard sink : bool) (p_run : nat) (alone : list (Z * list Z))
-           (order : list Z) (impl_ret impl_wr : list Z) (impl_ok : bool) : string :=
+           (order : list Z) (impl_ret impl_wr : list Z) (impl_ok : bool) (rowmap : list (Z * Z)) : string :=
   line "S" id
     (if Nat.eqb p_run 0 then "unspecified" else
      let expected := zsort (flat_map (fun q => match zlookup alone q with Some l => l | None => [(-1)%Z] end) order) in
      let ret_ok := if discard then true else zlist_eqb (zsort impl_ret) expected in
-     let wr_ok := if sink then zlist_eqb (zsort impl_wr) expected else true in
+     let wr_ok := if sink then zlist_eqb (zsort impl_wr) (zsort (map_rows rowmap expected)) else true in
      if impl_ok && ret_ok && wr_ok
      then "Ok ret=" ++ show_list show_Z impl_ret
           ++ " wr=" ++ (if sink then show_list show_Z (zsort impl_wr) else "-") ++ " echo=T single=T"
